@@ -67,6 +67,12 @@ var alphabet = []alphaVal{
 	{"formfeed", "f\ff", 1},
 	{"nel-trailing", "nel\u0085", 2},
 	{"em-space", "em\u2003sp", 2},
+	// Letter case: keys are written in lower case, values as they are.
+	{"upper", "LTS", 4},
+	{"mixed-case", "org.Example:Lib", 4},
+	{"mixed-case-framework", ".NETStandard2.0:net6.0", 2},
+	{"upper-key-name", "Dev", 2},
+	{"non-ascii-upper", "École", 2},
 }
 
 var alphaTotal = func() int {
